@@ -269,6 +269,35 @@ def run(ck):
 
         check_history(ck, "C05.R5", "%s.sample/overwrite=False" % scls, prog.method(scls, "sample").site(), mks,
                       lambda it, c: call(it, c[0], "sample", VConst(2), initial_state=c[1], overwrite=VConst(False)))
+    # ------------------------------------------------------------------ R1/R3 a batch of exactly one row keeps its batch axis
+    # ("samples are arrays of the requested shape": one chain is a (1, n) array; only a 1-D argument is a single vector)
+    for cls in ("BinaryRBM", "PurificationRBM"):
+        with ck.guard("C05.R1", cls + "/batch of one"):
+            def fn1(it, m, cls=cls):
+                R = role_terms(it, m)
+                out = {}
+                dims_ = {"v": "nv", "h": "nh", "a": "na"}
+                for name, (argk, _) in cond_refs(R, T.sym).items():
+                    for nm_ in (name, name.replace("prob_", "sample_")):
+                        args = [tens(it, k, (1, dims_[k])) for k in argk]
+                        out[nm_] = call(it, m, nm_, *args)
+                v0 = tens(it, "v0", (1, "nv"))
+                out["gibbs_steps"] = call(it, m, "gibbs_steps", VConst(2), v0, overwrite=VConst(True))
+                out["start"] = v0
+                return out
+
+            for p in returning(_rbm(ck, cls, fn1), cls + "/batch of one"):
+                res = p.value
+                for nm_, r_ in res.items():
+                    if nm_ == "start":
+                        continue
+                    od_ = {"prob_h_given_v": "nh", "prob_a_given_v": "na", "sample_h_given_v": "nh", "sample_a_given_v": "na"}.get(nm_, "nv")
+                    ck.check(shape_is(r_, (1, od_)), "C05.R1", "%s.%s/batch of one: result keeps the batch axis" % (cls, nm_), prog.method(cls, nm_).site(),
+                             "for a batch of exactly one row (shape (1, n)) the result has shape %s: the batch axis is dropped although the argument was not a single vector" % (getattr(r_, "shape", None),),
+                             key="C05.R1|%s.%s|batch of one squeezed" % (cls, nm_))
+                st_ = res["start"]
+                ck.check(shape_is(st_, (1, "nv")), "C05.R3", "%s.gibbs_steps/batch of one: the caller's start state keeps its shape" % cls, prog.method(cls, "gibbs_steps").site(),
+                         "after gibbs_steps(..., overwrite=True) the caller's (1, n) start state has shape %s" % (getattr(st_, "shape", None),), key="C05.R3|%s|start state reshaped" % cls)
     ck.require_min("C05.R5", 10)
     ck.require_min("C05.R1", 30)
     ck.require_min("C05.R2", 30)
